@@ -35,6 +35,7 @@ import (
 	"github.com/MinterTeam/minter-go-node/api/v2/service"
 	"github.com/MinterTeam/minter-go-node/coreV2/transaction"
 	"github.com/MinterTeam/minter-go-node/coreV2/types"
+	"github.com/MinterTeam/minter-go-node/rlp"
 	pb "github.com/MinterTeam/node-grpc-gateway/api_pb"
 	abci "github.com/tendermint/tendermint/abci/types"
 	"google.golang.org/protobuf/types/known/wrapperspb"
@@ -77,7 +78,19 @@ type c25Result struct {
 	FirstTouch  int             `json:"first_touch_cases"`
 	Hang        string          `json:"hang"`        // first /repo frame of the stuck executor goroutine
 	HangDetail  string          `json:"hang_detail"` // the blocked goroutines
+	Perturbed   []c25Perturbed  `json:"perturbed"`   // sequential interleaving: runs that differ from the query-free run
+	LockLeaks   []string        `json:"lock_leaks"`
+	SeqRuns     int             `json:"seq_runs"`
+	PanicsSoFar []c25QueryPanic `json:"panics_so_far"` // handler panics recorded while the run was going on
+	SeqCalls    map[string]int  `json:"seq_calls"`
 	Done        bool            `json:"done"`
+}
+
+type c25Perturbed struct {
+	Handler  string `json:"handler"`
+	Variant  string `json:"variant"`  // "fresh" or "restarted before block index k"
+	Position string `json:"position"` // where the handler was first called
+	Diff     string `json:"diff"`
 }
 
 func c25Spec(r *Rng) *GenesisSpec {
@@ -114,6 +127,7 @@ type c25Pool struct {
 	errs    map[string]int
 	panics  map[string]c25QueryPanic
 	height  int64 // last committed height, published by the executor thread
+	res     *c25Result
 }
 
 // firstRepoFrame returns the first frame below /repo of a stack dump (file:line, relative).
@@ -137,10 +151,17 @@ func (p *c25Pool) call(kind string, f func() error) {
 			fr := firstRepoFrame(st)
 			k := "c25-query-panic:" + fr
 			p.mu.Lock()
-			if _, ok := p.panics[k]; !ok {
+			_, seen := p.panics[k]
+			if !seen {
 				p.panics[k] = c25QueryPanic{Key: k, What: fmt.Sprintf("query %s panicked: %v", kind, r), Stack: stackRepoFrames(st, 10)}
 			}
 			p.mu.Unlock()
+			if !seen && p.res != nil {
+				// recorded at once: if the run hangs later (a mutex left locked by this panic), the dump shows it
+				c25ResMu.Lock()
+				p.res.PanicsSoFar = append(p.res.PanicsSoFar, p.panics[k])
+				c25ResMu.Unlock()
+			}
 		}
 	}()
 	err := f()
@@ -485,6 +506,18 @@ func runC25Child(seed uint64, stats string, mode string) {
 		os.WriteFile(stats, b, 0644)
 	}
 	save()
+	if mode == "lockleak" {
+		c25LockLeak(seed, res)
+		res.Done = true
+		save()
+		return
+	}
+	if mode == "seq" {
+		c25Sequential(seed, res, save)
+		res.Done = true
+		save()
+		return
+	}
 	if mode == "firsttouch-restart" {
 		// all the caches that are cold only after a restart, a few rounds each
 		for _, kind := range c25RestartKinds {
@@ -520,7 +553,7 @@ func runC25Child(seed uint64, stats string, mode string) {
 
 	// the loaded replay
 	n := newNode(h.Spec)
-	pool := &c25Pool{node: n, tg: c25TargetsOf(n, w), queries: res.Queries, errs: res.QueryErrors, panics: map[string]c25QueryPanic{}}
+	pool := &c25Pool{node: n, tg: c25TargetsOf(n, w), queries: res.Queries, errs: res.QueryErrors, panics: map[string]c25QueryPanic{}, res: res}
 	pool.svc = service.NewService(n.App, nil, nil, n.Cfg, "verif", n.App.RewardCounter())
 	atomic.StoreInt64(&pool.height, n.Height)
 	var progress int64
@@ -976,6 +1009,399 @@ func c25FirstTouchRestart(seed uint64, res *c25Result, kind string, rounds int) 
 	}
 }
 
+// ---- deterministic sequential interleaving ---------------------------------------------------------
+//
+// The concurrent load fires every handler for the first time before any transaction has touched the
+// objects it reads, so a handler whose FIRST call since process start does a one-time initialisation (a
+// lazy "load everything" that registers objects freshly read from the committed tree) is never seen doing
+// it in the middle of a block.  Here the handlers are called synchronously BETWEEN the DeliverTx calls of a
+// block (BlockOpts.PreTx / PostTx: after BeginBlock, between transactions, after the last transaction
+// before EndBlock), one handler kind per run, such that its first call comes right after an accepted
+// transaction that changed the objects it reads; once on a fresh node and once on a node restarted at a
+// random height (every lazy cache and one-time flag cold again), then all kinds mixed.  DeliverTx
+// responses, validator updates, emission and app hashes must be those of the query-free run.
+
+var c25SeqHandlers = []string{"swap_pools", "swap_pool", "swap_pool_provider", "limit_orders", "best_trade", "estimate_coin_sell", "estimate_coin_buy",
+	"estimate_coin_sell_all", "estimate_tx_commission", "candidates", "candidate", "coin_info", "address", "addresses", "frozen", "waitlist", "misc"}
+
+// the transaction types that change what a handler kind reads
+func c25Relevant(kind string, t transaction.TxType) bool {
+	pool := t == transaction.TypeCreateSwapPool || t == transaction.TypeAddLiquidity || t == transaction.TypeRemoveLiquidity || t == transaction.TypeSellSwapPool ||
+		t == transaction.TypeBuySwapPool || t == transaction.TypeSellAllSwapPool || t == transaction.TypeAddLimitOrder || t == transaction.TypeRemoveLimitOrder
+	coin := t == transaction.TypeCreateCoin || t == transaction.TypeCreateToken || t == transaction.TypeSellCoin || t == transaction.TypeBuyCoin || t == transaction.TypeSellAllCoin ||
+		t == transaction.TypeMintToken || t == transaction.TypeBurnToken || t == transaction.TypeRecreateCoin || t == transaction.TypeRecreateToken || t == transaction.TypeEditCoinOwner
+	stake := t == transaction.TypeDeclareCandidacy || t == transaction.TypeDelegate || t == transaction.TypeUnbond || t == transaction.TypeMoveStake || t == transaction.TypeSetCandidateOnline ||
+		t == transaction.TypeSetCandidateOffline || t == transaction.TypeEditCandidate || t == transaction.TypeEditCandidateCommission || t == transaction.TypeEditCandidatePublicKey || t == transaction.TypeLockStake
+	switch kind {
+	case "swap_pools", "swap_pool", "swap_pool_provider", "limit_orders", "best_trade":
+		return pool
+	case "estimate_coin_sell", "estimate_coin_buy", "estimate_coin_sell_all", "estimate_tx_commission":
+		return pool || coin
+	case "candidates", "candidate":
+		return stake
+	case "coin_info":
+		return coin || t == transaction.TypeCreateSwapPool
+	case "frozen":
+		return t == transaction.TypeUnbond || t == transaction.TypeLock || t == transaction.TypeMoveStake
+	case "waitlist":
+		return stake
+	}
+	return true // address(es), misc: any accepted transaction changes a balance
+}
+
+func c25TxType(raw []byte) transaction.TxType {
+	var tx transaction.Transaction
+	if err := rlp.DecodeBytes(raw, &tx); err != nil {
+		return 0
+	}
+	return tx.Type
+}
+
+// c25SeqCall issues the requests of one handler kind (for the current state, Height 0), chosen by r.
+func c25SeqCall(svc *service.Service, n *Node, tg *c25Targets, kind string, r *Rng, calls map[string]int) {
+	ctx := context.Background()
+	do := func(f func()) {
+		defer func() { recover() }() // a panicking handler is caught by the gRPC recovery interceptor
+		f()
+	}
+	calls[kind]++
+	addr := tg.Addrs[pick(r, len(tg.Addrs))]
+	coin := tg.Coins[pick(r, len(tg.Coins))]
+	coin2 := tg.Coins[pick(r, len(tg.Coins))]
+	amount := new(big.Int).Add(r.BigBelow(pip(1000)), Z(1000000)).String()
+	switch kind {
+	case "swap_pools":
+		do(func() { svc.SwapPools(ctx, &pb.SwapPoolsRequest{Orders: r.Bool()}) })
+	case "swap_pool":
+		for _, pl := range tg.Pools {
+			pl := pl
+			do(func() { svc.SwapPool(ctx, &pb.SwapPoolRequest{Coin0: pl[0], Coin1: pl[1]}) })
+		}
+		do(func() { svc.SwapPool(ctx, &pb.SwapPoolRequest{Coin0: coin, Coin1: coin2}) })
+	case "swap_pool_provider":
+		for _, pl := range tg.Pools {
+			pl := pl
+			do(func() {
+				svc.SwapPoolProvider(ctx, &pb.SwapPoolProviderRequest{Coin0: pl[0], Coin1: pl[1], Provider: addr})
+			})
+		}
+	case "limit_orders":
+		for _, pl := range tg.Pools {
+			pl := pl
+			do(func() {
+				svc.LimitOrdersOfPool(ctx, &pb.LimitOrdersOfPoolRequest{SellCoin: pl[0], BuyCoin: pl[1], Limit: 20})
+			})
+			do(func() {
+				svc.LimitOrdersOfPool(ctx, &pb.LimitOrdersOfPoolRequest{SellCoin: pl[1], BuyCoin: pl[0], Limit: 20})
+			})
+		}
+		do(func() {
+			svc.LimitOrders(ctx, &pb.LimitOrdersRequest{Ids: []uint64{1, 2, 3, 4, 5, 6, 7, 8, 9, 10, 11, 12}})
+		})
+		do(func() { svc.LimitOrder(ctx, &pb.LimitOrderRequest{OrderId: uint64(1 + r.Intn(20))}) })
+	case "best_trade":
+		do(func() {
+			svc.BestTrade(ctx, &pb.BestTradeRequest{SellCoin: coin, BuyCoin: coin2, Amount: amount, Type: pb.BestTradeRequest_input, MaxDepth: int32(1 + r.Intn(4))})
+		})
+		do(func() {
+			svc.BestTrade(ctx, &pb.BestTradeRequest{SellCoin: coin2, BuyCoin: coin, Amount: amount, Type: pb.BestTradeRequest_output, MaxDepth: int32(1 + r.Intn(4))})
+		})
+		for _, pl := range tg.Pools {
+			pl := pl
+			do(func() {
+				svc.BestTrade(ctx, &pb.BestTradeRequest{SellCoin: pl[0], BuyCoin: pl[1], Amount: amount, Type: pb.BestTradeRequest_input, MaxDepth: 3})
+			})
+		}
+	case "estimate_coin_sell":
+		pairs := append([][2]uint64{{coin, coin2}}, tg.Pools...)
+		for _, pl := range pairs {
+			pl := pl
+			do(func() {
+				svc.EstimateCoinSell(ctx, &pb.EstimateCoinSellRequest{Buy: &pb.EstimateCoinSellRequest_CoinIdToBuy{CoinIdToBuy: pl[1]},
+					Sell: &pb.EstimateCoinSellRequest_CoinIdToSell{CoinIdToSell: pl[0]}, ValueToSell: amount, SwapFrom: pb.SwapFrom(r.Intn(3)),
+					Commission: &pb.EstimateCoinSellRequest_CoinIdCommission{CoinIdCommission: tg.Coins[pick(r, len(tg.Coins))]}})
+			})
+		}
+	case "estimate_coin_buy":
+		pairs := append([][2]uint64{{coin, coin2}}, tg.Pools...)
+		for _, pl := range pairs {
+			pl := pl
+			do(func() {
+				svc.EstimateCoinBuy(ctx, &pb.EstimateCoinBuyRequest{Buy: &pb.EstimateCoinBuyRequest_CoinIdToBuy{CoinIdToBuy: pl[1]},
+					Sell: &pb.EstimateCoinBuyRequest_CoinIdToSell{CoinIdToSell: pl[0]}, ValueToBuy: amount, SwapFrom: pb.SwapFrom(r.Intn(3)),
+					Commission: &pb.EstimateCoinBuyRequest_CoinIdCommission{CoinIdCommission: tg.Coins[pick(r, len(tg.Coins))]}})
+			})
+		}
+	case "estimate_coin_sell_all":
+		pairs := append([][2]uint64{{coin, coin2}}, tg.Pools...)
+		for _, pl := range pairs {
+			pl := pl
+			do(func() {
+				svc.EstimateCoinSellAll(ctx, &pb.EstimateCoinSellAllRequest{Buy: &pb.EstimateCoinSellAllRequest_CoinIdToBuy{CoinIdToBuy: pl[1]},
+					Sell: &pb.EstimateCoinSellAllRequest_CoinIdToSell{CoinIdToSell: pl[0]}, ValueToSell: amount, GasPrice: 1, SwapFrom: pb.SwapFrom(r.Intn(3))})
+			})
+		}
+	case "estimate_tx_commission":
+		do(func() {
+			raw := n.MkTx(n.Accts[0], transaction.TypeSend, transaction.SendData{Coin: 0, To: n.Accts[1].Addr, Value: Z(1)}, types.CoinID(coin), 1, 1, nil)
+			svc.EstimateTxCommission(ctx, &pb.EstimateTxCommissionRequest{Tx: fmt.Sprintf("%x", raw)})
+		})
+	case "candidates":
+		do(func() { svc.Candidates(ctx, &pb.CandidatesRequest{IncludeStakes: true}) })
+		do(func() { svc.Candidates(ctx, &pb.CandidatesRequest{NotShowStakes: true}) })
+	case "candidate":
+		for _, c := range tg.Cands {
+			c := c
+			do(func() { svc.Candidate(ctx, &pb.CandidateRequest{PublicKey: c}) })
+		}
+		do(func() { svc.MissedBlocks(ctx, &pb.MissedBlocksRequest{PublicKey: tg.Cands[pick(r, len(tg.Cands))]}) })
+	case "coin_info":
+		for _, c := range tg.Coins {
+			c := c
+			do(func() { svc.CoinInfoById(ctx, &pb.CoinIdRequest{Id: c}) })
+		}
+		for _, sy := range tg.Syms {
+			sy := sy
+			do(func() { svc.CoinInfo(ctx, &pb.CoinInfoRequest{Symbol: sy}) })
+		}
+	case "address":
+		for _, a := range tg.Addrs {
+			a := a
+			do(func() { svc.Address(ctx, &pb.AddressRequest{Address: a, Delegated: true}) })
+		}
+	case "addresses":
+		do(func() { svc.Addresses(ctx, &pb.AddressesRequest{Addresses: tg.Addrs, Delegated: true}) })
+	case "frozen":
+		do(func() { svc.Frozen(ctx, &pb.FrozenRequest{Address: addr}) })
+		do(func() {
+			h := uint64(n.Height)
+			svc.FrozenAll(ctx, &pb.FrozenAllRequest{StartHeight: h, EndHeight: h + 600})
+		})
+	case "waitlist":
+		for _, a := range tg.Addrs {
+			a := a
+			do(func() { svc.WaitList(ctx, &pb.WaitListRequest{Address: a}) })
+		}
+	default: // misc
+		do(func() { svc.PriceCommission(ctx, &pb.PriceCommissionRequest{}) })
+		do(func() { svc.CommissionVotes(ctx, &pb.CommissionVotesRequest{TargetVersion: 1}) })
+		do(func() { svc.UpdateVotes(ctx, &pb.UpdateVotesRequest{TargetVersion: 1}) })
+		do(func() { svc.MaxGasPrice(ctx, &pb.MaxGasPriceRequest{}) })
+		do(func() {
+			app := n.App
+			app.GetEmission()
+			app.UpdateVersions()
+			app.CurrentState().App().GetTotalSlashed()
+			app.Info(abciInfo)
+		})
+	}
+}
+
+// c25SeqRun replays h; from the first accepted relevant transaction at or after block index `from` (any
+// accepted transaction three blocks later, if none is relevant) the handler kind is called: right after that
+// transaction, then after one transaction in three and before the first transaction of every other block.  kinds == nil: only `kind`; otherwise the
+// kinds rotate, starting with `kind`.  restartAt > 0: the node is restarted before that block index.
+func c25SeqRun(h *History, tg *c25Targets, kind string, kinds []string, restartAt, from int, r *Rng, calls map[string]int) (*HistResult, string) {
+	n := newNode(h.Spec)
+	defer n.Cleanup()
+	svc := service.NewService(n.App, nil, nil, n.Cfg, "verif", n.App.RewardCounter())
+	res := &HistResult{}
+	started, first, position, turn := false, false, "never", 0
+	call := func() {
+		first = false
+		k := kind
+		if kinds != nil {
+			k = kinds[turn%len(kinds)]
+			turn++
+		}
+		c25SeqCall(svc, n, tg, k, r, calls)
+	}
+	for bi, b := range h.Blocks {
+		if restartAt > 0 && bi == restartAt {
+			n.Restart()
+			svc = service.NewService(n.App, nil, nil, n.Cfg, "verif", n.App.RewardCounter())
+		}
+		opts := b.Opts
+		bi := bi
+		opts.PreTx = func(i int, raw []byte) {
+			if started && i == 0 && r.Intn(2) == 0 {
+				call() // between BeginBlock and the first transaction
+			}
+		}
+		opts.PostTx = func(i int, raw []byte, tr TxResult) {
+			if !started && bi >= from && tr.Code == 0 {
+				t := c25TxType(raw)
+				if c25Relevant(kind, t) || bi >= from+3 {
+					started, first = true, true
+					position = fmt.Sprintf("first call after transaction %d (type 0x%02x) of block index %d (height %d)", i, byte(t), bi, n.Height+1)
+				}
+			}
+			if started && (first || r.Intn(3) == 0) {
+				call() // between two DeliverTx, or between the last one and EndBlock
+			}
+		}
+		br := n.Block(b.Txs, &opts)
+		res.Hashes = append(res.Hashes, br.Hash)
+		res.Results = append(res.Results, br.Txs)
+		res.Updates = append(res.Updates, fmtUpdates(br))
+		if br.Panic != "" {
+			st := ""
+			if len(n.Stacks) > 0 {
+				st = " STACK " + n.Stacks[len(n.Stacks)-1]
+			}
+			res.Panics = append(res.Panics, br.Panic+st)
+			break
+		}
+		res.Emissions = append(res.Emissions, n.App.VerifAppDB().Emission().String())
+	}
+	return res, position
+}
+
+func c25Sequential(seed uint64, res *c25Result, save func()) {
+	r := NewRng(seed)
+	spec := c25Spec(r)
+	g := c25GenOpts(r)
+	h, alone, w := genHistory(seed, spec, g)
+	res.Blocks = len(h.Blocks)
+	res.Txs, res.Accepted = c25CountTxs(alone)
+	res.Types = w.TypeDist
+	res.Pools, res.Orders, res.Candidates = len(w.Pools), len(w.Orders), len(w.Cands)
+	res.AlonePanics = alone.Panics
+	res.SeqCalls = map[string]int{}
+	tgNode := newNode(h.Spec)
+	tg := c25TargetsOf(tgNode, w)
+	tgNode.Cleanup()
+	nb := len(h.Blocks)
+	if nb < 6 {
+		return
+	}
+	restartAt := 2 + r.Intn(nb-4)
+	// the query-free runs
+	refFresh, n1 := runRecorded(h, &execOpts{})
+	n1.Cleanup()
+	refRestart, n2 := runRecorded(h, &execOpts{RestartAfter: map[int64]int{int64(InitialHeight) + int64(restartAt) - 1: 1}})
+	n2.Cleanup()
+	alone.Emissions = alone.Emissions[:minInt(len(alone.Emissions), len(refFresh.Emissions))]
+	if d := diffRuns(alone, refFresh); d != "" {
+		res.ReplayDiff = d
+		res.Diff = d
+		return
+	}
+	if d := diffRuns(refFresh, refRestart); d != "" {
+		// a restart alone changes the run: not this property's business (C09), and no reference to compare with
+		res.ReplayDiff = "restart: " + d
+		return
+	}
+	t0 := time.Now()
+	check := func(kind, variant string, got *HistResult, pos string, ref *HistResult) {
+		res.SeqRuns++
+		if os.Getenv("C25_TIMING") != "" {
+			fmt.Fprintf(os.Stderr, "%-24s %-12.12s %6.0f ms\n", kind, variant, float64(time.Since(t0).Microseconds())/1000)
+			t0 = time.Now()
+		}
+		if d := diffRuns(ref, got); d != "" {
+			c25ResMu.Lock()
+			res.Perturbed = append(res.Perturbed, c25Perturbed{Handler: kind, Variant: variant, Position: pos, Diff: d})
+			c25ResMu.Unlock()
+			save()
+		}
+	}
+	full := os.Getenv("C25_SEQ_FULL") != ""
+	for hi, kind := range c25SeqHandlers {
+		// each history gives a handler kind one of the two variants (both with C25_SEQ_FULL); consecutive
+		// history seeds alternate, so that two histories cover both variants of every kind
+		if full || (uint64(hi)+seed)%2 == 0 {
+			// fresh node: the first call somewhere in the first half of the history
+			got, pos := c25SeqRun(h, tg, kind, nil, 0, r.Intn(nb/2+1), NewRng(seed^0x5e9), res.SeqCalls)
+			check(kind, "fresh node", got, pos, refFresh)
+		}
+		if full || (uint64(hi)+seed)%2 == 1 {
+			// restarted node: the first call after the restart
+			got, pos := c25SeqRun(h, tg, kind, nil, restartAt, restartAt, NewRng(seed^0x5ea), res.SeqCalls)
+			check(kind, fmt.Sprintf("node restarted before block index %d", restartAt), got, pos, refRestart)
+		}
+	}
+	// all kinds mixed, starting with a different kind each time
+	for k := 0; k < 1; k++ {
+		first := c25SeqHandlers[r.Intn(len(c25SeqHandlers))]
+		rot := append([]string{first}, c25SeqHandlers...)
+		got, pos := c25SeqRun(h, tg, first, rot, 0, r.Intn(nb/2+1), NewRng(seed^uint64(0x5eb+k)), res.SeqCalls)
+		check("mixed:"+first, "fresh node", got, pos, refFresh)
+		first = c25SeqHandlers[r.Intn(len(c25SeqHandlers))]
+		rot = append([]string{first}, c25SeqHandlers...)
+		got, pos = c25SeqRun(h, tg, first, rot, restartAt, restartAt, NewRng(seed^uint64(0x5ed+k)), res.SeqCalls)
+		check("mixed:"+first, fmt.Sprintf("node restarted before block index %d", restartAt), got, pos, refRestart)
+	}
+}
+
+// c25LockLeak: a query that panics while it holds a mutex of the live state must not keep it (the gRPC recovery
+// interceptor turns the panic into an error response and the node goes on: with the mutex still locked every
+// later transaction on the object blocks for ever).  Deterministic form of a hang seen under load (about 1 of
+// 100 histories): PairV2.AddLastSwapStepWithOrders, as called by the estimate handlers on the live pair, asked for
+// more than the pool holds (which happens when block execution shrinks the pool between the handler's
+// CalculateCommission and this call): calculateSellForBuyWithOrders returns nil, amount0InCalc.Cmp(...) panics
+// between lockOrders.Lock() and the non-deferred Unlock().
+func c25LockLeak(seed uint64, res *c25Result) {
+	spec := &GenesisSpec{NAccounts: 4, Balance: pip(100000000), NVals: 3}
+	n := newNode(spec)
+	defer n.Cleanup()
+	a := n.Accts[0]
+	var sym types.CoinSymbol
+	copy(sym[:], []byte("LEAKTOKEN"))
+	br := n.Block([][]byte{n.MkTx(a, transaction.TypeCreateToken, transaction.CreateTokenData{Name: "t", Symbol: sym, InitialAmount: pip(100000),
+		MaxSupply: pip(1000000), Mintable: true, Burnable: true}, 0, 0, 1, nil)}, nil)
+	if len(br.Txs) != 1 || br.Txs[0].Code != 0 {
+		res.ExecPanics = append(res.ExecPanics, "lock-leak setup: CreateToken rejected")
+		return
+	}
+	var id int
+	fmt.Sscan(br.Txs[0].Tags["tx.coin_id"], &id)
+	tok := types.CoinID(id)
+	br = n.Block([][]byte{n.MkTx(a, transaction.TypeCreateSwapPool, transaction.CreateSwapPoolData{Coin0: tok, Coin1: 0, Volume0: pip(1000), Volume1: pip(1000)}, 0, 0, 1, nil)}, nil)
+	if len(br.Txs) != 1 || br.Txs[0].Code != 0 {
+		res.ExecPanics = append(res.ExecPanics, "lock-leak setup: CreateSwapPool rejected")
+		return
+	}
+	swapper := n.App.CurrentState().Swap().GetSwapper(tok, 0)
+	_, r1 := swapper.Reserves()
+	panicked := ""
+	func() {
+		defer func() {
+			if r := recover(); r != nil {
+				panicked = fmt.Sprint(r) + " at " + firstRepoFrame(string(debug.Stack()))
+			}
+		}()
+		// the call of estimate_coin_sell_all.go:153 / estimate_coin_sell.go / estimate_coin_buy.go, with a commission in
+		// base coin that the pool cannot pay
+		swapper.AddLastSwapStepWithOrders(pip(1), new(big.Int).Add(r1, Z(1)), true)
+	}()
+	if panicked == "" {
+		return // no panic, nothing can leak
+	}
+	done := make(chan struct{})
+	go func() {
+		swapper.OrdersSell(1) // takes lockOrders, like every trade through the pool
+		close(done)
+	}()
+	select {
+	case <-done:
+	case <-time.After(3 * time.Second):
+		res.LockLeaks = append(res.LockLeaks, "PairV2.AddLastSwapStepWithOrders panicked ("+panicked+") while holding PairV2.lockOrders and left it locked: OrdersSell on the same pool does not return (every later trade through the pool, i.e. block execution, blocks for ever)")
+	}
+}
+
+// c25PanicNote: a handler that panics between Lock and Unlock (no defer) leaves the mutex locked for ever
+func c25PanicNote(ps []c25QueryPanic) string {
+	if len(ps) == 0 {
+		return ""
+	}
+	s := "\nhandler panics before the hang (a panic between Lock and a non-deferred Unlock leaves the mutex locked):"
+	for _, p := range ps {
+		s += "\n  " + p.What + " :: " + p.Stack
+	}
+	return s
+}
+
 // ---- parent ----------------------------------------------------------------------------------------
 
 var raceFrameRe = regexp.MustCompile(`^\s+(/\S+\.go):(\d+)`)
@@ -1144,6 +1570,7 @@ func runC25(seed uint64, n int, out, stats string, args []string) {
 	raceCount := map[string]int{}
 	benignRaces := map[string]int{}
 	queryPanics := map[string]string{}
+	seqRuns, seqCalls := 0, map[string]int{}
 	racesIgnored := 0
 	nontriv, blocks, txs, accepted := 0, 0, 0, 0
 	var samples []string
@@ -1152,7 +1579,14 @@ func runC25(seed uint64, n int, out, stats string, args []string) {
 		logp := filepath.Join(tmp, fmt.Sprintf("race_%s_%d", mode, idx))
 		ctx, cancel := context.WithTimeout(context.Background(), 150*time.Second)
 		defer cancel()
-		cmd := exec.CommandContext(ctx, self, "c25", "-seed", fmt.Sprint(s), "-n", "1", "-out", os.DevNull, "-stats", rf, "child", mode)
+		bin := self
+		if mode == "seq" && strings.HasSuffix(self, "-race") {
+			// nothing runs concurrently in this mode: the plain binary (built by bin/setup) is several times faster
+			if _, err := os.Stat(strings.TrimSuffix(self, "-race")); err == nil {
+				bin = strings.TrimSuffix(self, "-race")
+			}
+		}
+		cmd := exec.CommandContext(ctx, bin, "c25", "-seed", fmt.Sprint(s), "-n", "1", "-out", os.DevNull, "-stats", rf, "child", mode)
 		// the child's node directories live below tmp: a child that is killed (runtime throw, watchdog) cannot clean up
 		cmd.Env = append(os.Environ(), "GORACE=halt_on_error=0 exitcode=0 history_size=3 log_path="+logp, "VERIF_TMP="+tmp)
 		errFile := filepath.Join(tmp, fmt.Sprintf("stderr_%s_%d", mode, idx))
@@ -1197,7 +1631,7 @@ func runC25(seed uint64, n int, out, stats string, args []string) {
 			if i := strings.LastIndex(hk, "/"); i > 0 {
 				hk = hk[:i] // the package: the file and line where the executor happens to wait vary with the schedule
 			}
-			add("c25-deadlock:"+hk, "C25: goroutines block each other for ever under query load (block execution stops); first stuck at "+res.Hang+"\n"+res.HangDetail, replay)
+			add("c25-deadlock:"+hk, "C25: goroutines block each other for ever under query load (block execution stops); first stuck at "+res.Hang+"\n"+res.HangDetail+c25PanicNote(res.PanicsSoFar), replay)
 			return &res
 		}
 		if !res.Done {
@@ -1250,6 +1684,17 @@ func runC25(seed uint64, n int, out, stats string, args []string) {
 				add("c25-replay-differs", "C25: the recorded history does not replay identically even without load: "+res.ReplayDiff, replay)
 			}
 		}
+		for _, l := range res.LockLeaks {
+			add("c25-lock-leak:swap.PairV2.lockOrders", "C25: a query that panics keeps a mutex of the live state locked (the gRPC recovery interceptor lets the node go on): "+l, replay)
+		}
+		for _, pt := range res.Perturbed {
+			hk := pt.Handler
+			if strings.HasPrefix(hk, "mixed:") {
+				hk = "mixed"
+			}
+			add("c25-perturbed:"+hk, fmt.Sprintf("C25: calling the %s handler(s) between the transactions of a block changes block execution (%s; %s): %s", pt.Handler, pt.Variant, pt.Position, pt.Diff),
+				replay+fmt.Sprintf(" (history seed %d, handler %s, %s, %s)", s, pt.Handler, pt.Variant, pt.Position))
+		}
 		for _, l := range res.LostUpdates {
 			if i := strings.Index(l, "|"); i > 0 && c25LostKey[l[:i]] != "" {
 				add(c25LostKey[l[:i]], "C25: a query served while the first transaction after a restart touched the same cached object made the transaction's effect disappear from the committed state (non-atomic cache fill: the query's freshly loaded copy replaced the object block execution had modified): "+l[i+1:], replay)
@@ -1281,6 +1726,12 @@ func runC25(seed uint64, n int, out, stats string, args []string) {
 		if res.Done && res.Accepted > 0 && nq > 0 {
 			nontriv++
 		}
+		// the same history with the handlers called synchronously between its transactions
+		sq := runChild(s, "seq", i)
+		seqRuns += sq.SeqRuns
+		for k, v := range sq.SeqCalls {
+			seqCalls[k] += v
+		}
 		if len(samples) < 3 {
 			samples = append(samples, fmt.Sprintf("history seed=%d blocks=%d txs=%d accepted=%d pools=%d orders=%d candidates=%d queries=%d diff=%q", s, res.Blocks, res.Txs, res.Accepted, res.Pools, res.Orders, res.Candidates, nq, res.Diff))
 		}
@@ -1295,6 +1746,8 @@ func runC25(seed uint64, n int, out, stats string, args []string) {
 		res = runChild(seed*7927+uint64(i), "firsttouch-restart", i)
 		ft += res.FirstTouch
 	}
+	// 5. a panicking query must not keep a mutex of the live state
+	runChild(seed, "lockleak", 0)
 	rk := []string{}
 	for k, v := range raceCount {
 		rk = append(rk, fmt.Sprintf("%s x%d", k, v))
@@ -1306,8 +1759,9 @@ func runC25(seed uint64, n int, out, stats string, args []string) {
 	}
 	sort.Strings(bk)
 	writeStats(stats, &Stats{Property: "C25", Seed: seed, Cases: n, Ops: txs, NonTrivial: nontriv,
-		Rule: "each case: a seeded history (18-25 blocks, 0-6 txs per block weighted towards pools, limit orders, trades, candidates, delegations; absences) generated on the real node (run alone) and replayed on a second node while 4 goroutines call the real api/v2/service handlers (address(es), candidate(s), coin info, swap pool(s)/provider, limit orders, best trade, estimates, frozen, waitlist, commission/votes, status values, private-state export, historical requests) on the live state; compared: app hashes, DeliverTx responses, validator updates, emission; in a -race build a data-race report is a failure when a query goroutine writes or when either access is a map operation (reports in which block execution writes a plain field that a query reads are recorded as unsynchronised_query_reads: they can neither stop the process nor change what the executor computes); plus targeted first-touch scenarios (balance queries racing the first credit of fresh addresses; after a restart, coin / ticker / waitlist / frozen-funds queries racing the first transaction that touches the object) and the static lock-discipline table; non-trivial = accepted transactions and served queries; histories distinct by seed",
+		Rule: "each case: a seeded history (18-25 blocks, 0-6 txs per block weighted towards pools, limit orders, trades, candidates, delegations; absences) generated on the real node (run alone) and replayed on a second node while 4 goroutines call the real api/v2/service handlers (address(es), candidate(s), coin info, swap pool(s)/provider, limit orders, best trade, estimates, frozen, waitlist, commission/votes, status values, private-state export, historical requests) on the live state; compared: app hashes, DeliverTx responses, validator updates, emission; in a -race build a data-race report is a failure when a query goroutine writes or when either access is a map operation (reports in which block execution writes a plain field that a query reads are recorded as unsynchronised_query_reads: they can neither stop the process nor change what the executor computes); plus targeted first-touch scenarios (balance queries racing the first credit of fresh addresses; after a restart, coin / ticker / waitlist / frozen-funds queries racing the first transaction that touches the object) ; plus a deterministic sequential interleaving of every history (one handler kind per run, called between the DeliverTx calls of a block, its first call right after an accepted transaction that changed what it reads; on a fresh node and on a node restarted at a random height; then all kinds mixed; same comparison) and the static lock-discipline table; non-trivial = accepted transactions and served queries; histories distinct by seed",
 		Dist: dist, Samples: samples, Monitor: mon,
 		Extra: map[string]interface{}{"race_build": raceEnabled, "blocks": blocks, "txs": txs, "accepted_txs": accepted, "queries": queries, "query_errors": qerrs,
-			"race_reports": rk, "unsynchronised_query_reads": bk, "static_unguarded_sites": nStatic, "first_touch_cases": ft, "query_panics_recovered": queryPanics, "race_reports_without_node_frames": racesIgnored}})
+			"race_reports": rk, "unsynchronised_query_reads": bk, "static_unguarded_sites": nStatic, "first_touch_cases": ft, "query_panics_recovered": queryPanics, "race_reports_without_node_frames": racesIgnored,
+			"sequential_interleaving_runs": seqRuns, "sequential_interleaving_calls": seqCalls}})
 }
